@@ -59,7 +59,12 @@ ASSUMPTIONS = [
     "the cached verdict is recomputed after resolvers are registered / reassigned AND after `field.arguments = [...]` (fix C13-HHH3: the rule relates a "
     "resolver to the arguments); types, names and members edited IN PLACE (`field.type = T`, `field.name = n`, `type.fields = [...]`) followed by "
     "`Schema.validate()` on the same Schema object are outside the statement ('recomputed after ... resolvers are reassigned'): covered only through "
-    "a cache reset (replace request / fresh Schema), stream H",
+    "a cache reset (replace request / fresh Schema), stream H; stream L executes every kind of structural plain assignment between two "
+    "validate() calls and compares outcome / cache flag with the cache machine (op assignStructure): the stale verdicts it meets for the untracked "
+    "kinds are COUNTED in the evidence (`outside_statement_stale_after_structural_setter`, Lean: cache_unsound_unseen_structural_setter, "
+    "cache_sound_all_mutators_fails_today), not reported; for the tracked kinds (argument type / default, number of fields) they are failures",
+    "resolver identities recorded with the cached verdict stay alive (the fingerprint holds references): stream M drops a resolver, allocates replacements "
+    "until one lands on the freed address (evidence `address_reuse_collisions`: 0 everywhere on a tree that keeps references) and requires the fresh verdict",
     "plain assignment of resolvers (`schema.default_resolver = f`, `type.default_resolver = f`, `field.resolver = f`, "
     "`field.subscription_resolver = f`: documented in docs/usage/defining-resolvers.rst) is part of the histories; the model follows fix C13-HH1",
     "limit of any signature-based rule: `functools.partial(f, v)` hides the positionally bound parameter from `inspect.signature` although "
@@ -75,7 +80,10 @@ TRUSTED = [
     "inspect.signature (resolver signatures enter the model as data dumped with it)",
     "re._parser (character classes of VALID_NAME_RE)",
     "the resolver-signature clauses (Lean `ResolverCompatible` / `ResolverViol`, Python `spec_resolver_rules_data`) are tied to Python's "
-    "call binding by REALLY CALLING the generated callables with every admissible keyword set (stream K and every code-built schema), not by a Lean proof",
+    "call binding by REALLY CALLING the generated callables with every admissible keyword set (stream K and every code-built schema); since "
+    "Props.C13.compatible_iff_binds the clause is PROVED equivalent to `bindOk` (an explicit model of Python's call binding, Spec/SchemaValidSpec.lean) "
+    "binding every admissible call, and `bindOk` is compared with CPython on 576 signatures x 16 keyword sets in every run (stream N): what stays trusted "
+    "is that CPython's binding on other signatures follows the same three rules",
     "message attribution: templates read from the source (static: literals reaching add_error through %, .format, local / "
     "module / class constants, literal sequences iterated by a for); when a message expression is not recognised (evidence key "
     "`extraction: dynamic`) the templates are LEARNED by running the real validator on 2x30 single-violation schemas "
@@ -2826,6 +2834,327 @@ def stream_histories(ctx, batch):
         batch.add({"op": "history", "schema": start, "cached": cached0, "ops": mops}, cont)
 
 
+# ---- L: the remaining public setters (structure edited by plain assignment) and the verdict cache --------------------
+
+STRUCTURAL_KINDS = ["field_type_input", "field_type_benign", "interfaces_object", "union_clear", "input_fields_clear",
+                    "input_field_type_object", "arg_type_object", "arg_default_added", "fields_extra", "type_name_reserved"]
+# kinds that touch what fix C13-HHH3 made part of the cached verdict (the argument objects of a field and their
+# type / default, the number of fields): for these a stale verdict IS a failure of the property
+TRACKED_KINDS = {"arg_type_object", "arg_default_added", "fields_extra"}
+
+
+def apply_structural_setter(rng, s, kind):
+    """One plain assignment through a public setter of types.py on a live schema; False = no target in this schema."""
+    from py_gql.schema import ObjectType, InterfaceType, UnionType, InputObjectType, Field, Int, String
+    user = [t for t in s.types.values() if not t.name.startswith("__") and t.name not in gs.SCALARS]
+    objs = [t for t in user if isinstance(t, ObjectType)]
+    inputs = [t for t in user if isinstance(t, InputObjectType)]
+    unions = [t for t in user if isinstance(t, UnionType)]
+    if kind == "field_type_input":
+        if not inputs:
+            return False
+        rng.choice(rng.choice(objs).fields).type = rng.choice(inputs)
+    elif kind == "field_type_benign":
+        cands = [f for t in objs for f in t.fields if getattr(f.type, "name", None) in ("Int", "String")
+                 and not any(f.name in getattr(i, "field_map", {}) for i in t.interfaces)]
+        if not cands:
+            return False
+        f = rng.choice(cands)
+        f.type = String if f.type is Int else Int
+    elif kind == "interfaces_object":
+        if len(objs) < 2:
+            return False
+        a, b = rng.sample(objs, 2)
+        a.interfaces = list(a.interfaces) + [b]
+    elif kind == "union_clear":
+        if not unions:
+            return False
+        rng.choice(unions).types = []
+    elif kind == "input_fields_clear":
+        if not inputs:
+            return False
+        rng.choice(inputs).fields = []
+    elif kind == "input_field_type_object":
+        cands = [t for t in inputs if t.fields]
+        if not cands:
+            return False
+        rng.choice(rng.choice(cands).fields).type = rng.choice(objs)
+    elif kind in ("arg_type_object", "arg_default_added"):
+        cands = [a for t in objs for f in t.fields for a in f.arguments
+                 if kind == "arg_type_object" or (not a.has_default_value and getattr(a.type, "name", None) == "Int")]
+        if not cands:
+            return False
+        a = rng.choice(cands)
+        if kind == "arg_type_object":
+            a.type = rng.choice(objs)
+        else:
+            a.default_value = "not-an-int"
+    elif kind == "fields_extra":
+        t = rng.choice(objs)
+        t.fields = list(t.fields) + [Field("__zz_bad", Int)]
+    elif kind == "type_name_reserved":
+        cands = [f for t in objs for f in t.fields]
+        rng.choice(cands).name = "__zz"
+    else:
+        return False
+    return True
+
+
+def snapshot_seen(schema, before):
+    """Does the comparison `Schema.validate()` makes (`_current_resolvers()` against what it validated, by identity) see
+    the assignment? (private API of the tree under test; a tree without it compares nothing: not seen)"""
+    cur = getattr(schema, "_current_resolvers", None)
+    if cur is None or before is None:
+        return False
+    import py_gql.schema.schema as _m
+    same = getattr(_m, "_same_objects", None)
+    return not (same(before, cur()) if same is not None else before == cur())
+
+
+def structural_case(ctx, batch, seed, kind):
+    """validate() -> one structural plain assignment -> validate(): outcome and cache flag against the cache machine (op
+    `assignStructure`, Props.C13.structural_setter_seen_sound / cache_unsound_unseen_structural_setter); for the TRACKED
+    kinds a verdict that is not recomputed is a failure of the property, for the others it is recorded only (ASSUMPTIONS)."""
+    import random
+    from py_gql.exc import GraphQLError
+    rng = random.Random(seed)
+    d0 = add_resolvers(rng, add_arg_cluster(base_schema(rng, rng.choice([0, 0, 1]), cluster=rng.random() < 0.5)), p=0.15)
+    s = try_build(ctx, build_code, d0)
+    if s is None:
+        return None
+    if real_validate(s)[0] != "valid":
+        return None
+    try:
+        s.validate()
+    except GraphQLError:
+        return None
+    start, cached0 = dump(s), verdict_cached(s)
+    cur = getattr(s, "_current_resolvers", None)
+    before = cur() if cur is not None else None
+    try:
+        if not apply_structural_setter(rng, s, kind):
+            return None
+    except Exception as exc:  # noqa  (a setter refusing the value)
+        ctx.stat("structural-setter-refused:%s:%s" % (kind, type(exc).__name__))
+        return None
+    seen = snapshot_seen(s, before)
+    trace = [{"outcome": "ok", "cached": verdict_cached(s), "fresh_valid": real_validate(s)[0] == "valid"}]
+    try:
+        s.validate()
+        outcome = "ok"
+    except GraphQLError as exc:
+        outcome = type(exc).__name__
+    except Exception as exc:  # noqa
+        outcome = "internal:" + type(exc).__name__
+    trace.append({"outcome": outcome, "cached": verdict_cached(s), "fresh_valid": trace[0]["fresh_valid"]})
+    mops = [{"op": "assign_structure", "schema": dump(s), "seen": seen}, {"op": "validate"}]
+    ctx.count()
+    ctx.stat("structural-setter:%s:%s:%s" % (kind, "seen" if seen else "unseen", "still-valid" if trace[0]["fresh_valid"] else "now-invalid"))
+    ctx.nontrivial(("structural", kind, canon_schema.canon(start)))
+    detail = {"how": "structural-setter", "structural_seed": seed, "kind": kind, "trace": trace, "seen": seen}
+    fails = []
+    if outcome.startswith("internal"):
+        fails.append(("structural-setter-raises:%s:%s" % (kind, outcome), "validate() raises an undocumented exception after a plain assignment", "property"))
+    if outcome == "ok" and not trace[0]["fresh_valid"]:
+        if kind in TRACKED_KINDS:
+            fails.append(("stale-verdict-after:structural-setter:%s" % kind,
+                          "validate() accepts although the current schema is invalid (the assignment concerns what the cached verdict stands for)", "property"))
+        else:
+            ctx.stat("outside-statement:stale-verdict-after-structural-setter:%s" % kind)
+            ctx.extra.setdefault("outside_statement_stale_after_structural_setter", {})
+            ctx.extra["outside_statement_stale_after_structural_setter"][kind] = \
+                ctx.extra["outside_statement_stale_after_structural_setter"].get(kind, 0) + 1
+
+    def cont(ans, trace=trace, detail=detail):
+        mt = ans.get("trace", [])
+        if [(a["outcome"], a["cached"], a["fresh_valid"]) for a in trace] != [(b.get("outcome"), b.get("cached"), b.get("fresh_valid")) for b in mt]:
+            ctx.fail("corr:history:assign_structure:%s" % detail["kind"], "cache machine and Schema differ after a structural plain assignment",
+                     dict(detail, model_trace=mt), kind="correspondence")
+    if batch is not None and ctx.model_ok:
+        batch.add({"op": "history", "schema": start, "cached": cached0, "ops": mops}, cont)
+    for sig, what, knd in fails:
+        ctx.fail(sig, what, detail, kind=knd)
+    return not fails
+
+
+def stream_structural_setters(ctx, batch):
+    """every kind of structural setter, a fixed quota per kind in every run (own PRNG per case: the other streams'
+    draws are untouched)"""
+    base = 0x51C0DE
+    want = ctx.n(3, 12)
+    for kind in STRUCTURAL_KINDS:
+        got = 0
+        for j in range(want * 10):
+            if got >= want or ctx.time_left() < 6:
+                break
+            r = structural_case(ctx, batch, base + 1009 * j + (__import__("zlib").crc32(kind.encode()) & 0xFFFF), kind)
+            if r is not None:
+                got += 1
+        if got == 0:
+            ctx.stat("structural-setter-never-applicable:" + kind)
+
+
+# ---- M: a resolver dropped, then another one assigned that lives AT THE SAME ADDRESS ---------------------------------
+
+ADDRESS_SLOTS = ["schema_default", "type_default", "field_resolver", "field_subscription"]
+
+
+def _slot_good():
+    def resolve_greeting(root, ctx, info, name=None):
+        return "hello"
+    return resolve_greeting
+
+
+def _slot_bad():
+    # cannot be called as resolver(root, ctx, info, name=...)
+    def resolve_greeting(root):
+        return "hello"
+    return resolve_greeting
+
+
+def address_reuse_case(ctx, slot, tries=20000):
+    """validate() ok -> the ONLY reference to a resolver is dropped by plain assignment (`slot = None`) -> replacement
+    callables are created until one is allocated at the freed address (bounded; candidates are kept alive so that every
+    one gets another block) -> it is assigned by plain assignment -> validate() must give the verdict of a fresh
+    validation (the new callable is incompatible: SchemaValidationError). On a tree whose verdict fingerprint keeps the
+    validated callables alive (HEAD: `_current_resolvers()` holds the objects, `_same_objects` compares with `is`) the
+    address is never handed out again and the case degenerates to the ordinary reassignment; on a tree that records
+    `id()` numbers the collision is reached within a few allocations. The Lean cache machine speaks of resolver
+    IDENTITIES that stay alive as long as the state refers to them (`same` flags); address reuse is outside the model
+    and covered here. Returns (fails, collided)."""
+    import gc
+    from py_gql.exc import GraphQLError
+    from py_gql.schema import Argument, Field, ObjectType, Schema, String
+    field = Field("greeting", String, [Argument("name", String)])
+    query = ObjectType("Query", [field])
+    schema = Schema(query)
+
+    def get():
+        return {"schema_default": schema.default_resolver, "type_default": query.default_resolver,
+                "field_resolver": field.resolver, "field_subscription": field.subscription_resolver}[slot]
+
+    def put(v):
+        if slot == "schema_default":
+            schema.default_resolver = v
+        elif slot == "type_default":
+            query.default_resolver = v
+        elif slot == "field_resolver":
+            field.resolver = v
+        else:
+            field.subscription_resolver = v
+    fails = []
+    put(_slot_good())
+    try:
+        schema.validate()
+    except GraphQLError as exc:
+        return [("address-reuse:setup-rejected:%s" % slot, "a compatible resolver is rejected: %s" % str(exc)[:100])], False
+    old_address = id(get())
+    put(None)
+    gc.collect()
+    keep, bad = [], None
+    for _ in range(tries):
+        cand = _slot_bad()
+        if id(cand) == old_address:
+            bad = cand
+            break
+        keep.append(cand)
+    collided = bad is not None
+    if bad is None:
+        bad = keep[-1]
+    del keep
+    put(bad)
+    ctx.count()
+    fresh = real_validate(schema)[0]
+    try:
+        schema.validate()
+        cached = "valid"
+    except GraphQLError:
+        cached = "invalid"
+    except Exception as exc:  # noqa
+        cached = "internal:" + type(exc).__name__
+    ctx.stat("address-reuse:%s:%s" % (slot, "collided" if collided else "no-collision"))
+    if fresh == "invalid" and cached != "invalid":
+        fails.append(("stale-verdict-after:drop-then-assign:%s:%s" % (slot, "address-reused" if collided else "fresh-address"),
+                      "validate() returns `%s` after `%s = None; %s = <incompatible callable%s>` although a fresh validation rejects the schema"
+                      % (cached, slot, slot, " allocated at the freed address" if collided else "")))
+    elif fresh != "invalid":
+        ctx.stat("address-reuse:%s:replacement-not-rejected-by-fresh-validation" % slot)
+    return fails, collided
+
+
+def stream_address_reuse(ctx):
+    """every resolver slot, a fixed number of attempts in every run (no PRNG involved)"""
+    reached = {}
+    for slot in ADDRESS_SLOTS:
+        for _ in range(ctx.n(3, 10)):
+            fails, collided = address_reuse_case(ctx, slot)
+            reached[slot] = reached.get(slot, 0) + (1 if collided else 0)
+            ctx.nontrivial(("address-reuse", slot))
+            for sig, what in fails:
+                ctx.fail(sig, what, {"how": "address-reuse", "slot": slot, "what": what})
+            if fails:
+                break
+    ctx.extra["address_reuse_collisions"] = reached
+
+
+# ---- N: the call-binding model (Lean `bindOk`) against CPython ---------------------------------------------------------
+
+def stream_call_binding(ctx, batch):
+    """`Props.C13.compatible_iff_binds` says that the rule accepts a signature exactly when `bindOk` (an explicit model
+    of Python's call binding) binds every call the executor can make. Here `bindOk` itself is compared with CPython:
+    bounded-exhaustive signatures (0-3 positional-only parameters, the first one named `c`; 0-3 leading
+    positional-or-keyword parameters `root, ctx, info`; `a` absent / required / defaulted; `*args`; keyword-only `b`
+    absent / required / defaulted; `**kw`) x every keyword set over {a, b, c, root}: the callable is REALLY CALLED as
+    `fn(1, 2, 3, **kw)`; it binds iff no TypeError. 576 signatures x 16 keyword sets in every run, no PRNG."""
+    import itertools as it
+    names = ["a", "b", "c", "root"]
+    ksets = [list(x) for k in range(len(names) + 1) for x in it.combinations(names, k)]
+    done = 0
+    for i, j, a, vp, b, vk in it.product(range(4), range(4), range(3), range(2), range(3), range(2)):
+        parts = []
+        if i:
+            parts += ["c"] + ["p%d" % x for x in range(1, i)] + ["/"]
+        parts += ["root", "ctx", "info"][:j]
+        if a:
+            parts.append("a" if a == 1 else "a=None")
+        if vp:
+            parts.append("*args")
+        elif b:
+            parts.append("*")
+        if b:
+            parts.append("b" if b == 1 else "b=None")
+        if vk:
+            parts.append("**kw")
+        try:
+            fn = eval("lambda %s: None" % ", ".join(parts), {})
+        except SyntaxError:
+            ctx.stat("call-binding:signature-not-python")
+            continue
+        real = []
+        for ks in ksets:
+            try:
+                fn(1, 2, 3, **{k: 1 for k in ks})
+                real.append(True)
+            except TypeError:
+                real.append(False)
+        done += 1
+        ctx.count(len(ksets))
+        shape = "po%d-pk%d-a%d-vp%d-b%d-vk%d" % (i, j, a, vp, b, vk)
+        ctx.nontrivial(("call-binding", shape))
+        ctx.stat("call-binding:binds-%d-of-16" % sum(real))
+
+        def cont(ans, real=real, shape=shape, sig=", ".join(parts)):
+            got = ans.get("binds")
+            if got != real:
+                k = next((x for x in range(len(real)) if got is None or x >= len(got) or got[x] != real[x]), 0)
+                ctx.fail("corr:call-binding:%s:kw=%s" % (shape, "+".join(ksets[k]) or "none"),
+                         "the call-binding model and CPython differ on `(lambda %s: None)(1, 2, 3, **{%s})`" % (sig, ", ".join(ksets[k])),
+                         {"how": "call-binding", "signature": sig, "kw": ksets[k], "cpython_binds": real[k],
+                          "model_binds": None if got is None or k >= len(got) else got[k]}, kind="correspondence")
+        batch.add({"op": "bind", "resolver": canon_schema.dump_resolver(fn), "kws": [{"k": ks} for ks in ksets]}, cont)
+    ctx.extra["call_binding_signatures"] = done
+
+
 # ---------------------------------------------------------------------------------------------
 
 def corpus_cases(ctx, batch):
@@ -2865,6 +3194,9 @@ def run(ctx):
     stream_permutations(ctx, batch)
     stream_histories(ctx, batch)
     stream_valid_and_injected(ctx, batch)
+    stream_structural_setters(ctx, batch)
+    stream_address_reuse(ctx)
+    stream_call_binding(ctx, batch)
     batch.flush()
     ctx.extra.pop("_shrunk", None)
     ctx.extra["extraction"] = attribution_mode()
@@ -2886,6 +3218,10 @@ def _to_tuples(x):
 def replay(ctx, data):
     """True = the property holds on this input."""
     inp = data.get("input", {})
+    if inp.get("how") == "structural-setter":
+        return bool(structural_case(ctx, None, inp["structural_seed"], inp["kind"]))
+    if inp.get("how") == "address-reuse":
+        return not any(address_reuse_case(ctx, inp["slot"])[0] for _ in range(5))
     how = inp.get("how", "")
     if not how:
         return True     # not a failing-input replay (e.g. a record of what no longer checks)
